@@ -15,7 +15,8 @@ replay = F.replay
 
 
 def run(ctx, model_ok, deep=False):
-    extra = {"rsa1024": K.gen_key("rsa", 1024, ctx.scratch), "p384": K.gen_key("ec", "P-384", ctx.scratch),
+    extra = {"rsa1024": K.gen_key("rsa", 1024, ctx.scratch), "rsa2047": K.gen_key("rsa", 2047, ctx.scratch),
+             "rsa2041": K.gen_key("rsa", 2041, ctx.scratch), "p384": K.gen_key("ec", "P-384", ctx.scratch),
              "p521": K.gen_key("ec", "P-521", ctx.scratch), "k256": K.gen_key("ec", "secp256k1", ctx.scratch),
              "ed448": K.gen_key("okp", "ED448", ctx.scratch)}
     if ctx.tier == "thorough" or deep:
